@@ -1,2 +1,82 @@
-(* C13 - closing theorems only. *)
-From Slim Require Import Base Keys Model.
+(* C13 - Storing more key information only removes false positives.
+   Closing theorems only; proofs in theories/MonoProofs.v (shape of two builds,
+   the paired descent) and theories/MonoCompleteProofs.v (corollary of C03).
+
+   Modes are the normalised options [opts]: what is stored is (o_inner, o_leaf);
+   Complete = both.  "o2 stores at least what o1 stores" is
+   (o_inner o1 = true -> o_inner o2 = true) /\ (o_leaf o1 = true -> o_leaf o2 = true),
+   so the four stored-information classes none <= inner, leaf <= complete and every
+   pair of raw option combinations that normalise into comparable classes are
+   covered.  Both tries are built from the same keys and values with equal
+   DedupValue; the statements hold for EVERY query string. *)
+From Slim Require Import Base Keys Model QueryProofs MonoProofs MonoCompleteProofs.
+
+(* found in the mode that stores more => found with the same value (and the
+   same node id) in the mode that stores less *)
+Theorem C13_more_information_only_removes_positives :
+  forall (r1 r2 : raw_opt) (keys : list key) (vals : option (list (list byte))) (T1 T2 : trie) (q : key) (v : option (list byte)),
+    o_dedup (normalize r1) = o_dedup (normalize r2) ->
+    (o_inner (normalize r1) = true -> o_inner (normalize r2) = true) ->
+    (o_leaf (normalize r1) = true -> o_leaf (normalize r2) = true) ->
+    build (normalize r1) keys vals = Ok T1 -> build (normalize r2) keys vals = Ok T2 ->
+    get T2 q = Ok (Found v) ->
+    get T1 q = Ok (Found v) /\ getid T1 q = getid T2 q.
+Proof.
+  intros r1 r2 keys vals T1 T2 q v Hd Hi Hl.
+  exact (richer_found_poorer_found (normalize r1) (normalize r2) keys vals T1 T2 q v Hd (conj Hi Hl)).
+Qed.
+Print Assumptions C13_more_information_only_removes_positives.
+
+(* a mode that stores both prefixes reports found only for retained keys *)
+Theorem C13_complete_reports_only_retained_keys :
+  forall (r : raw_opt) (keys : list key) (vals : option (list (list byte))) (T : trie) (q : key) (v : option (list byte)),
+    build (normalize r) keys vals = Ok T ->
+    o_inner (normalize r) = true -> o_leaf (normalize r) = true ->
+    get T q = Ok (Found v) ->
+    exists i, nth_error keys i = Some q /\ retained (normalize r) keys vals i = true.
+Proof. intros r keys vals T q v. exact (complete_found_retained (normalize r) keys vals T q v). Qed.
+Print Assumptions C13_complete_reports_only_retained_keys.
+
+(* every two modes (comparable or not) with equal DedupValue give the same
+   answer - found, the same value, the same node id - for a retained key *)
+Theorem C13_retained_keys_identical_in_all_modes :
+  forall (r1 r2 : raw_opt) (keys : list key) (vals : option (list (list byte))) (T1 T2 : trie) (i : nat) (k : key),
+    o_dedup (normalize r1) = o_dedup (normalize r2) ->
+    build (normalize r1) keys vals = Ok T1 -> build (normalize r2) keys vals = Ok T2 ->
+    nth_error keys i = Some k -> retained (normalize r1) keys vals i = true ->
+    exists v id, get T1 k = Ok (Found v) /\ get T2 k = Ok (Found v) /\
+                 getid T1 k = Some id /\ getid T2 k = Some id /\
+                 val_bytes v = supplied vals i /\ (vals = None -> v = None).
+Proof.
+  intros r1 r2 keys vals T1 T2 i k.
+  exact (retained_key_same_answer (normalize r1) (normalize r2) keys vals T1 T2 i k).
+Qed.
+Print Assumptions C13_retained_keys_identical_in_all_modes.
+
+(* Complete normalises to both prefixes whatever the other fields say *)
+Theorem C13_complete_is_top :
+  forall d i l, o_inner (normalize {| r_dedup := d; r_inner := i; r_leaf := l; r_complete := Some true |}) = true /\
+                o_leaf (normalize {| r_dedup := d; r_inner := i; r_leaf := l; r_complete := Some true |}) = true.
+Proof. intros d i l. split; reflexivity. Qed.
+Print Assumptions C13_complete_is_top.
+
+(* non-vacuity: the absent key "am" is accepted by the mode that stores nothing
+   and by the one that stores inner prefixes only, and rejected once leaf tails
+   are stored; the retained key "abc" is found everywhere *)
+Definition ex_keys : list key := [ ["097"%byte]; ["097"%byte; "098"%byte; "099"%byte]; ["098"%byte] ].
+Definition ex_vals : option (list (list byte)) := Some [ ["001"%byte]; ["002"%byte]; ["003"%byte] ].
+Definition ex_raw (i l c : option bool) : raw_opt := {| r_dedup := None; r_inner := i; r_leaf := l; r_complete := c |}.
+Definition am : key := ["097"%byte; "109"%byte].
+Definition abc : key := ["097"%byte; "098"%byte; "099"%byte].
+Definition ex_get (r : raw_opt) (q : key) : res found :=
+  match build (normalize r) ex_keys ex_vals with Ok T => get T q | Err e => Err e end.
+Example C13_example :
+  ex_get (ex_raw None None None) am = Ok (Found (Some ["002"%byte])) /\
+  ex_get (ex_raw (Some true) None None) am = Ok (Found (Some ["002"%byte])) /\
+  ex_get (ex_raw None (Some true) None) am = Ok NotFound /\
+  ex_get (ex_raw None None (Some true)) am = Ok NotFound /\
+  ex_get (ex_raw None None None) abc = Ok (Found (Some ["002"%byte])) /\
+  ex_get (ex_raw (Some true) None None) abc = Ok (Found (Some ["002"%byte])) /\
+  ex_get (ex_raw None (Some true) None) abc = Ok (Found (Some ["002"%byte])) /\
+  ex_get (ex_raw None None (Some true)) abc = Ok (Found (Some ["002"%byte])).
+Proof. vm_compute. repeat split. Qed.
